@@ -64,3 +64,13 @@ Example C07_simultaneous_open :
   map fst (e_slots (s_a s)) = [9; 11] /\ map fst (e_slots (s_b s)) = [11; 9] /\
   len (e_streams (s_a s)) = 2 /\ len (e_streams (s_b s)) = 2.
 Proof. vm_compute. auto. Qed.
+
+(* The multi-step clause "each successful stream request yields exactly one stream on each
+   endpoint" does NOT hold of the model (nor of the code it follows) when the requester redraws
+   the id of a flow it has just closed while answers to the earlier incarnation are still in
+   flight: witness (two requests, three accepted streams).  Open known finding
+   `id-reuse-stale-answer`; see DESIGN.md section 6. *)
+From PV Require Import Mux.Reuse.
+Theorem C07_one_stream_per_request_refuted :
+  exists os, reuse_outs = Some os /\ count_opens 0 reuse_labels = 2 /\ count_accepts 1 reuse_labels os = 3.
+Proof. exact one_stream_per_request_refuted. Qed.
